@@ -51,11 +51,17 @@ def ptr_default_container(t):
         return None
     kind, args = m.group(1), split_targs(m.group(2))
     nkey = 1 if "set" in kind else 2
-    if not args[0].endswith("*"):
+    k0 = args[0].replace("const ", "").strip()
+    if not (k0.endswith("*") or k0.startswith("std::shared_ptr<") or k0.startswith("std::pair<") and _pair_has_ptr(k0)):
         return None
     if len(args) > nkey and not args[nkey].startswith("std::less<"):
         return None
     return kind, args[0]
+
+
+def _pair_has_ptr(t):
+    inner = split_targs(t[t.find("<") + 1:t.rfind(">")])
+    return any(x.replace("const ", "").strip().endswith("*") or x.strip().startswith("std::shared_ptr<") for x in inner)
 
 
 def container_sites(prog):
@@ -282,11 +288,69 @@ def _basename_(cname):
     return _basename(cname)
 
 
+def rule_ptr_misc(chk, prog, reviewed):
+    r = chk.rule("PTR-ORDER-MISC", "other ways an address can order things: std::sort / stable_sort / min_element / max_element / std::min / "
+                 "std::max with the default comparison on pointer (or shared_ptr) operands, and iteration over unordered containers keyed "
+                 "by pointers -- exactly the reviewed sites (tables/ptr_order_reviewed.json: misc)", floor=1)
+    table = reviewed.get("misc", {})
+    n_seen = 0
+    for f in prog.all_functions():
+        if f.tmpl == "pattern" or "/tests/" in f.file:
+            continue
+        for n in f.nodes():
+            cn = n.get("cname", "")
+            inst = None
+            if n.get("k") == "CallExpr" and (cn.startswith("std::sort<") or cn.startswith("std::stable_sort<") or cn.startswith("std::min_element<")
+                                             or cn.startswith("std::max_element<")) and len(n.get("ch", [])) == 3:
+                # two iterator arguments, default operator<: element type from the iterator type
+                t0 = strip(n["ch"][1]).get("t", "")
+                el = t0
+                if ("*" in el and ("__normal_iterator<" in el or el.rstrip().endswith("**"))) and _elem_is_ptr(el):
+                    inst = "%s: %s(%s)" % (f.q, cn.split("<")[0], norm(n["ch"][1]))
+            elif n.get("k") == "CallExpr" and (cn.startswith("std::min<") or cn.startswith("std::max<")) and len(n.get("ch", [])) == 3:
+                t0 = strip(n["ch"][1]).get("t", "")
+                if t0.replace("const", "").strip().endswith("*") or "shared_ptr<" in t0:
+                    inst = "%s: %s(%s, %s)" % (f.q, cn.split("<")[0], norm(n["ch"][1]), norm(n["ch"][2]))
+            elif n.get("k") == "CXXForRangeStmt":
+                t0 = strip(n["range"]).get("t", "")
+                m = re.match(r"(?:const )?std::unordered_(set|map|multiset|multimap)<(.*)>", t0.strip().rstrip("&").strip())
+                if m and _key_is_ptr(split_targs(m.group(2))[0]):
+                    inst = "%s | %s" % (f.q, norm(n["range"]))
+            elif n.get("k") == "CXXMemberCallExpr" and re.match(r"std::unordered_(set|map|multiset|multimap)<.*>::(begin|cbegin)$", cn):
+                m = re.match(r"std::unordered_(?:set|map|multiset|multimap)<(.*)>::", cn)
+                if m and _key_is_ptr(split_targs(m.group(1))[0]):
+                    inst = "%s | %s" % (f.q, norm(call_object(n)))
+            if inst is None:
+                continue
+            n_seen += 1
+            r.count()
+            if inst in table:
+                r.ok(inst, f.loc(n), "reviewed: " + table[inst])
+            else:
+                r.bad(inst, f.loc(n), "orders or visits elements by their addresses (default comparison / hash of a pointer)")
+    if n_seen == 0:
+        r.count()
+        r.ok("no such site in the five libraries", "", "")
+
+
+def _elem_is_ptr(itert):
+    m = re.search(r"__normal_iterator<(.*?),", itert)
+    el = m.group(1).strip() if m else itert
+    el = el.replace("const", "").strip()
+    return el.endswith("**") or el.endswith("* *") or ("shared_ptr<" in el and el.rstrip().endswith("*"))
+
+
+def _key_is_ptr(k):
+    k = k.replace("const ", "").strip()
+    return k.endswith("*") or k.startswith("std::shared_ptr<")
+
+
 def run(chk):
     prog = chk.load()
     reviewed = load_reviewed()
     rule_ptr_cmp(chk, prog, reviewed)
     rule_ptr_containers(chk, prog, reviewed)
+    rule_ptr_misc(chk, prog, reviewed)
     rule_nondet(chk, prog, reviewed)
     rule_prng(chk, prog)
     rule_id_tiebreak(chk, prog)
